@@ -95,8 +95,10 @@ class HEM(ModelSpec):
             vc.assume(P[k] > 0)
             vc.sp_symbol(k, **ass)
         vc.assume(P["p"] < 1)
-        par = vc.obj("rpylib.model.levymodel.mixed.hem:HEMParameters")
-        par.fields.update(P)
+        vc.assume(Not(P["eta1"] == 1))            # the constructor divides by eta1 - 1: no parameters object exists for eta1 = 1
+        sigma = vc.real("sigma")
+        vc.assume(sigma > 0)
+        par = vc.new("rpylib.model.levymodel.mixed.hem:HEMParameters", sigma=sigma, **P)       # the real constructor (derived attributes as it sets them)
         return vc.obj(self.cls, parameters=par)
 
     def native(self, pt):
@@ -116,8 +118,9 @@ class Merton(ModelSpec):
         for k, (ass, _) in self.params.items():
             vc.sp_symbol(k, **ass)
         vc.assume(And(P["sigma_j"] > 0, P["intensity"] > 0, P["mu_j"] >= 0))
-        par = vc.obj("rpylib.model.levymodel.mixed.merton:MertonParameters")
-        par.fields.update(P)
+        sigma = vc.real("sigma")
+        vc.assume(sigma > 0)
+        par = vc.new("rpylib.model.levymodel.mixed.merton:MertonParameters", sigma=sigma, **P)  # the real constructor
         return vc.obj(self.cls, parameters=par)
 
     def native(self, pt):
@@ -669,8 +672,11 @@ UNITS = [ClosedForm(s) for s in MODELS.values()] + [XnExp(), XnDispatch(), Densi
 def LATE_UNITS():
     # "A truncated measure returns the integral over the intersection of [a,b] with its truncation interval and its
     # density vanishes outside it": the contracts live in c01 (over the abstract measure layer) and are part of C09 too
-    from contracts import c01
-    return [c01.TruncatedInterval(), c01.TruncatedIntegrate(), c01.TruncatedDensity()]
+    from contracts import c01, c20
+    # "for every model ... equal the integral of x^n times the model's density": also for a model whose parameters were
+    # reassigned and re-initialised (calibration): every derived attribute the density / closed forms read is then the one a
+    # directly constructed object has (C20's synchronisation lemma)
+    return [c01.TruncatedInterval(), c01.TruncatedIntegrate(), c01.TruncatedDensity(), c20.Synchronisation()]
 
 
 ASSUMPTIONS = ["A1: floats are mathematical reals", "A6: fundamental theorem of calculus (an antiderivative with the right base value is the integral)",
